@@ -80,13 +80,18 @@ def blocks (P : Params) : Nat → Regs → List UInt8 → Regs × List UInt8
   | 0, st, d => (st, d)
   | fuel + 1, st, d => if 64 ≤ d.length then blocks P fuel (transform P st (d.take 64)) (d.drop 64) else (st, d)
 
-/-- the bit-count update of `update()`: `plain_text_len << 3` is a 64-bit `size_t`; `count_[0]` is
-32 bits wide; the carry test compares the 32-bit sum with the 64-bit shifted length -/
-def countUpdate (c0 c1 : UInt32) (len : Nat) : UInt32 × UInt32 :=
+/-- the bit-count update of `update()`: `plain_text_len << 3` is a 64-bit `size_t`; `count_[0]` is 32 bits wide.
+`wide = true`: the carry test compares the 32-bit sum with the 64-bit shifted length (the code before fix C19-05);
+`wide = false`: with the shifted length truncated to 32 bits (RFC 1321, after the fix). -/
+def countUpdateW (wide : Bool) (c0 c1 : UInt32) (len : Nat) : UInt32 × UInt32 :=
   let sh := (len * 8) % 2 ^ 64
   let c0' := c0 + UInt32.ofNat sh
-  let c1a := if c0'.toNat < sh then c1 + 1 else c1
+  let cmp := if wide then sh else sh % 2 ^ 32
+  let c1a := if c0'.toNat < cmp then c1 + 1 else c1
   (c0', c1a + UInt32.ofNat (len / 2 ^ 29))
+
+/-- the comparison as it is in the source today (`Gen.md5CarryWide` is read from md5.cpp on every run) -/
+def countUpdate (c0 c1 : UInt32) (len : Nat) : UInt32 × UInt32 := countUpdateW Gen.md5CarryWide c0 c1 len
 
 /-- `MD5::update` -/
 def update (P : Params) (c : Ctx) (data : List UInt8) : Ctx :=
